@@ -50,6 +50,7 @@ from numpy import (
 from sympy import (
     Basic,
     Expr,
+    Symbol,
     latex,
     limit,
     sympify,
@@ -387,13 +388,13 @@ class Element(ABC):
         key: str
         value: float
         for key, value in values.items():
-            repl: Union[str, float]
+            repl: Union[str, float, Expr]
 
             if not substitute:
                 if self._label != "":
-                    repl = f"{key}_{self._label}"
+                    repl = Symbol(f"{key}_{self._label}")
                 elif identifier >= 0:
-                    repl = f"{key}_{identifier}"
+                    repl = Symbol(f"{key}_{identifier}")
                 else:
                     repl = f"{key}"
 
@@ -1774,9 +1775,9 @@ class Container(Element):
             repl: Union[str, float, Expr]
             if not substitute:
                 if self._label != "":
-                    repl = f"{key}_{self._label}"
+                    repl = Symbol(f"{key}_{self._label}")
                 elif identifier >= 0:
-                    repl = f"{key}_{identifier}"
+                    repl = Symbol(f"{key}_{identifier}")
                 else:
                     repl = f"{key}"
             elif isposinf(value):
